@@ -246,8 +246,8 @@ func wkt(wkt string) (*SR, error) {
 	// OGC/GDAL-style WKT names the central meridian of the conic projections
 	// longitude_of_center (proj4js maps it for Albers and Lambert azimuthal).
 	if math.IsNaN(sr.Long0) && !math.IsNaN(sr.LongC) &&
-		(sr.Name == "Albers_Conic_Equal_Area" || sr.Name == "Lambert_Azimuthal_Equal_Area" ||
-			sr.Name == "Equidistant_Conic") {
+		(strings.EqualFold(sr.Name, "Albers_Conic_Equal_Area") || strings.EqualFold(sr.Name, "Lambert_Azimuthal_Equal_Area") ||
+			strings.EqualFold(sr.Name, "Equidistant_Conic")) { // (the projection itself is looked up without regard to case)
 		sr.Long0 = sr.LongC
 	}
 
